@@ -33,6 +33,10 @@ CLAIMS = {
             "ONLY the keyword clause: a keyword replaces the word token only when it covers the whole word; the precedence/longest-match/ordering clauses are not decided"),
     "C07": ("bounded-write rule (interval tracking of each index over tests and increments on every path), who-may-call table for libc's allocator, field coverage of delete functions", "§4 C07",
             "discipline, not safety: every write into a constant-size array has its own bound; only alloc.c touches libc's allocator; delete functions release every owning field"),
+    "C19": ("typestate monitor (lock held / dropped) and publish-after-success monitor over rustc MIR; who-may-call table for the compile functions; data-dependence of the compiler's output argument on temp_path", "§4 C19",
+            "compile only under the lock, lock dropped on every exit, atomic publication via temp+rename after success, waiter re-checks freshness; interleavings and crash points themselves are not decided"),
+    "C20": ("field-flow tracing of TestCorrection arguments, type-aware taint from the reader's delimiter tuple to the entry, path counting of recorded corrections with correlated pure conditions (rustc MIR)", "§4 C20",
+            "what the reader extracts is what the writer gets, and every test is recorded exactly once on update; byte-for-byte idempotence is not decided"),
     "C08": ("who-may-write tables + licence-class gates over the Clang-resolved program; call-graph closure of the read-only API; compile-fail witnesses", "§4 C08",
             "no non-atomic write to shared nodes, every in-place mutation licensed by fresh/ref_count==1/dec-to-zero"),
 }
@@ -78,7 +82,7 @@ def main():
                   "source_commits": [], "add_only": True},
         "engines": [
             {"name": "cfacts", "path": "engines/cfacts", "serves_properties": [c for c in CLAIMS], "kind_free_text": "LibTooling extractor: Clang AST + CFG of lib/src/lib.c with build.rs flags → JSON facts"},
-            {"name": "rsfacts", "path": "engines/rsfacts", "serves_properties": [], "kind_free_text": "rustc_private driver: MIR/HIR facts of the workspace crates → JSON facts"},
+            {"name": "rsfacts", "path": "engines/rsfacts", "serves_properties": ["C19", "C20", "C15", "C17", "C01", "C13", "C14", "C07", "C10"], "kind_free_text": "rustc_private driver: MIR/HIR facts of the workspace crates → JSON facts"},
             {"name": "rules", "path": "engines/rules", "serves_properties": [c for c in CLAIMS], "kind_free_text": "Python rule engine: patterns, path-sensitive CFG search with flag tracking, who-may/field/sibling rules; tables in props/"},
         ],
         "checks": checks,
